@@ -172,6 +172,7 @@ func checkC05(c *core.Ctx) error {
 	}
 	checkCholeskyRun(c, d)
 	checkRotationOffsets(c)
+	checkPerIterationAccumulators(c)
 	return nil
 }
 
@@ -446,4 +447,120 @@ func checkRotationOffsets(c *core.Ctx) {
 				"the rotation is accumulated with "+a.text+", which is not the block's origin plus the rows/columns the rotation was applied to in the block: the accumulated orthogonal factor no longer matches the reduced block, so the factors do not multiply back to the input")
 		}
 	}
+}
+
+// checkPerIterationAccumulators (C05.R5): a scalar that is accumulated in an inner loop (running maximum, running sum:
+// its new value depends on its old one) and read by the enclosing loop's body after that inner loop is a per-iteration
+// quantity of the enclosing loop (theta_j of the forced-positive-definite LDL': the largest |c_ij| of column j). It has
+// to be re-initialised in the enclosing loop's body before the inner loop on every iteration; otherwise the quantity of
+// an earlier iteration leaks into a later one (a stale theta inflates the pivots of later columns, so L*D*L' no longer
+// equals a sufficiently positive definite input). Accumulators that are only read after the enclosing loop (global
+// maxima, totals) are not concerned.
+func checkPerIterationAccumulators(c *core.Ctx) {
+	c.Rule("C05.R5", "a scalar accumulated in an inner loop and read by the enclosing loop after it is re-initialised in every iteration of the enclosing loop (factorisation packages)", 3)
+	n := 0
+	for _, rel := range []string{"algorithm/cholesky", "algorithm/gramSchmidt", "algorithm/householder", "algorithm/householderBidiagonalization", "algorithm/householderTridiagonalization",
+		"algorithm/hessenbergReduction", "algorithm/qrAlgorithm", "algorithm/eigensystem", "algorithm/svd", "algorithm/msqrt", "algorithm/msqrtInv", "algorithm/gaussJordan", "algorithm/determinant", "algorithm/backSubstitution"} {
+		p := c.Pkg(rel)
+		if p == nil {
+			continue
+		}
+		info := p.TypesInfo
+		pkg := p
+		core.EachFunc(p, func(_ *ast.File, fd *ast.FuncDecl) {
+			var outers []*ast.ForStmt
+			ast.Inspect(fd.Body, func(x ast.Node) bool {
+				if fs, ok := x.(*ast.ForStmt); ok {
+					outers = append(outers, fs)
+				}
+				return true
+			})
+			for _, outer := range outers {
+				// direct statements of the outer body
+				for si, st := range outer.Body.List {
+					inner, ok := st.(*ast.ForStmt)
+					if !ok {
+						continue
+					}
+					// self-dependent updates of plain variables inside the inner loop
+					acc := map[types.Object]token.Pos{}
+					ast.Inspect(inner.Body, func(y ast.Node) bool {
+						switch v := y.(type) {
+						case *ast.AssignStmt:
+							if len(v.Lhs) != 1 || len(v.Rhs) != 1 {
+								return true
+							}
+							id, ok := v.Lhs[0].(*ast.Ident)
+							if !ok {
+								return true
+							}
+							o := info.Uses[id]
+							if o == nil {
+								return true
+							}
+							if b, ok := o.Type().Underlying().(*types.Basic); !ok || b.Info()&types.IsNumeric == 0 {
+								return true
+							}
+							if v.Tok != token.ASSIGN {
+								acc[o] = v.Pos() // += etc.
+							}
+						case *ast.IfStmt:
+							// if x > v { v = x }
+							ast.Inspect(v.Cond, func(z ast.Node) bool {
+								if cid, ok := z.(*ast.Ident); ok {
+									if o := info.Uses[cid]; o != nil {
+										for _, bs := range v.Body.List {
+											if as, ok := bs.(*ast.AssignStmt); ok && len(as.Lhs) == 1 && as.Tok == token.ASSIGN {
+												if lid, ok := as.Lhs[0].(*ast.Ident); ok && info.Uses[lid] == o {
+													if b, ok := o.Type().Underlying().(*types.Basic); ok && b.Info()&types.IsNumeric != 0 {
+														acc[o] = as.Pos()
+													}
+												}
+											}
+										}
+									}
+								}
+								return true
+							})
+						}
+						return true
+					})
+					for o, pos := range acc {
+						// declared outside the outer loop?
+						if o.Pos() >= outer.Pos() && o.Pos() < outer.End() {
+							continue
+						}
+						// read in the outer body after the inner loop
+						readAfter := false
+						for _, later := range outer.Body.List[si+1:] {
+							ast.Inspect(later, func(z ast.Node) bool {
+								if id, ok := z.(*ast.Ident); ok && info.Uses[id] == o {
+									readAfter = true
+								}
+								return true
+							})
+						}
+						if !readAfter {
+							continue
+						}
+						n++
+						// assigned unconditionally in the outer body before the inner loop
+						reset := false
+						for _, earlier := range outer.Body.List[:si] {
+							if as, ok := earlier.(*ast.AssignStmt); ok && as.Tok == token.ASSIGN || ok && as.Tok == token.DEFINE {
+								for _, l := range as.Lhs {
+									if id, ok := l.(*ast.Ident); ok && (info.Uses[id] == o || info.Defs[id] == o) {
+										reset = true
+									}
+								}
+							}
+						}
+						c.Check(reset, "C05.R5", c.FuncName(pkg, fd), "accumulator "+o.Name()+" is re-initialised per iteration of the enclosing loop", pos,
+							"the scalar "+o.Name()+" is accumulated in an inner loop and read afterwards by the enclosing loop, but it is not re-initialised in the enclosing loop's body before the inner loop: its value from an earlier iteration leaks into the later ones")
+					}
+				}
+			}
+		})
+	}
+	c.Analysed["per_iteration_accumulators"] = n
 }
